@@ -39,6 +39,7 @@ def run(ctx):
     group_action(ctx, I)
     index_formula(ctx)
     coverage(ctx, I)
+    normalisation(ctx, I)
     batching(ctx)
 
 
@@ -48,6 +49,8 @@ RULES = {
     "C14.group-action": "every symmetry operator is a quaternion produced by a rotation constructor and every application goes through quat_product",
     "C14.index": "misorientation_index == theta_max/(2·nbins)·sum_i |theory(edge_i, edge_{i+1}) - count_i|; histogram range (0, theta_max), density=True, theta_max bins",
     "C14.coverage": "per lattice system the union of the branch intervals of misorientations_random equals [0, theta_max] exactly",
+    "C14.normalisation": "per lattice system the theoretical density, as evaluated by the index on 1-degree bins over [0, theta_max], sums to 1 within 1e-3 "
+                         "(constant folding of the closed-form branch expressions; same table-agreement argument as coverage)",
     "C14.batch-order": "misorientation_indices distributes with an order-preserving map over orientation_stack and stores results at the enumerate index",
 }
 
@@ -208,6 +211,10 @@ def quats_single(I_, *a, **k):
 
 # ---- interval coverage by constant folding of misorientations_random
 
+class NotFoldable(Exception):
+    pass
+
+
 def fold(node, env):
     """Evaluate a constant numeric expression (np.* -> math.*) with names from env; raises on anything else."""
     if isinstance(node, ast.Constant) and isinstance(node.value, (int, float)):
@@ -229,17 +236,17 @@ def fold(node, env):
                 return a ** b
         except OverflowError:
             return float("inf")
-        raise ValueError("operator")
+        raise NotFoldable("operator")
     if isinstance(node, ast.UnaryOp) and isinstance(node.op, ast.USub):
         return -fold(node.operand, env)
     if isinstance(node, ast.Call):
         d = (flow.dotted(node.func) or "").split(".")[-1]
         args = [fold(a, env) for a in node.args]
         table = {"tan": math.tan, "arctan": math.atan, "sqrt": math.sqrt, "deg2rad": math.radians, "rad2deg": math.degrees, "round": round,
-                 "sin": math.sin, "cos": math.cos, "radians": math.radians, "degrees": math.degrees, "abs": abs, "float": float, "int": int}
+                 "sin": math.sin, "cos": math.cos, "arccos": math.acos, "arcsin": math.asin, "exp": math.exp, "log": math.log, "radians": math.radians, "degrees": math.degrees, "abs": abs, "float": float, "int": int}
         if d in table:
             return table[d](*args)
-    raise ValueError(f"not a foldable constant: {ast.unparse(node)}")
+    raise NotFoldable(f"not a foldable constant: {ast.unparse(node)}")
 
 
 def coverage(ctx, I):
@@ -276,17 +283,17 @@ def coverage(ctx, I):
                 if isinstance(s, ast.Assign) and isinstance(s.targets[0], ast.Name) and s.targets[0].id not in env:
                     try:
                         env[s.targets[0].id] = fold(s.value, env)
-                    except (ValueError, KeyError):
+                    except (ValueError, KeyError, NotFoldable):
                         pass
             ivs = []
             for a in arms:
                 t = a.test
                 if not (isinstance(t, ast.Compare) and len(t.ops) == 2 and all(isinstance(o, (ast.LtE, ast.Lt)) for o in t.ops)):
-                    raise ValueError("unsupported arm test " + ast.unparse(t))
+                    raise NotFoldable("unsupported arm test " + ast.unparse(t))
                 lo, hi = fold(t.left, env), fold(t.comparators[1], env)
                 if lo <= hi:
                     ivs.append((lo, hi))
-        except (ValueError, KeyError) as ex:
+        except (ValueError, KeyError, NotFoldable) as ex:
             ctx.ob("C14.coverage", f"stats.misorientations_random:{name}", "inconclusive", f"constant folding failed: {ex}", loc)
             continue
         th = THETA_MAX[name]
@@ -315,6 +322,92 @@ def coverage(ctx, I):
         else:
             ctx.ob("C14.coverage", f"stats.misorientations_random:{name}", True, f"intervals {[(round(a, 3), round(b, 3)) for a, b in ivs]}", loc)
     ctx.floor("C14.coverage", 6)
+
+
+def density_at(arms, tail, env0, var, theta):
+    """Value contributed by misorientations_random's branch chain for one bin edge (constant folding of one arm)."""
+    env = dict(env0)
+    env[var] = theta
+    for a in arms:
+        t = a.test
+        lo, hi = fold(t.left, env), fold(t.comparators[1], env)
+        if lo <= theta <= hi:
+            val = 0.0
+            for s in a.body:
+                if isinstance(s, ast.Assign) and isinstance(s.targets[0], ast.Name):
+                    env[s.targets[0].id] = fold(s.value, env)
+                elif isinstance(s, (ast.AugAssign, ast.Assign)):
+                    val = fold(s.value, env)
+            return val
+    return None
+
+
+def normalisation(ctx, I):
+    dotted = "pydrex.stats.misorientations_random"
+    loc = defloc(ctx, dotted)
+    fn = ctx.program.require(dotted)
+    loop = [n for n in ast.walk(fn) if isinstance(n, ast.For) and isinstance(n.target, ast.Tuple)]
+    chain = None
+    for n in ast.walk(fn):
+        if isinstance(n, ast.If) and isinstance(n.test, ast.Compare) and len(n.test.ops) == 2 and isinstance(n.test.comparators[0], ast.Name) \
+                and n.test.comparators[0].id not in ("low", "high"):
+            chain = n
+            break
+    if chain is None or not loop:
+        ctx.ob("C14.normalisation", "chain", "inconclusive", "no interval chain found", loc)
+        return
+    var = chain.test.comparators[0].id
+    arms, cur = [], chain
+    while True:
+        arms.append(cur)
+        if len(cur.orelse) == 1 and isinstance(cur.orelse[0], ast.If):
+            cur = cur.orelse[0]
+        else:
+            break
+    # statements of the loop body before the chain (e.g. d = deg2rad(edgeval))
+    pre = []
+    for s in loop[0].body:
+        if s is chain:
+            break
+        pre.append(s)
+    for name, (M, N) in GRIMMER.items():
+        env = {"M": M, "N": N, "max_θ": THETA_MAX[name]}
+        for s in fn.body:
+            if isinstance(s, ast.Assign) and isinstance(s.targets[0], ast.Name) and s.targets[0].id not in env:
+                try:
+                    env[s.targets[0].id] = fold(s.value, env)
+                except (ValueError, KeyError, NotFoldable):
+                    pass
+        th = THETA_MAX[name]
+        total, hole = 0.0, None
+        try:
+            vals = []
+            for deg in range(th + 1):
+                e = dict(env)
+                e[var] = float(deg)
+                for s in pre:
+                    if isinstance(s, ast.Assign) and isinstance(s.targets[0], ast.Name):
+                        e[s.targets[0].id] = fold(s.value, e)
+                v = density_at(arms, None, e, var, float(deg))
+                if v is None:
+                    hole = deg
+                    break
+                vals.append(v)
+            if hole is None:
+                total = sum((vals[i] + vals[i + 1]) / 2 for i in range(th))
+        except (KeyError, NotFoldable) as ex:
+            ctx.ob("C14.normalisation", f"stats.misorientations_random:{name}", "inconclusive", f"constant folding failed: {ex}", loc)
+            continue
+        except (ValueError, ZeroDivisionError) as ex:
+            ctx.ob("C14.normalisation", f"stats.misorientations_random:{name}", False,
+                   f"the density formula cannot be evaluated on all of [0, {th}] ({ex} at an admissible angle)", loc)
+            continue
+        if hole is not None:
+            ctx.ob("C14.normalisation", f"stats.misorientations_random:{name}", False, f"no branch evaluates the density at {hole} degrees (<= theta_max = {th})", loc)
+        else:
+            ctx.ob("C14.normalisation", f"stats.misorientations_random:{name}", abs(total - 1.0) <= 1e-3,
+                   f"sum over 1-degree bins of the theoretical density on [0, {th}] = {total:.4f} (must be 1 within 1e-3)", loc)
+    ctx.floor("C14.normalisation", 6)
 
 
 def batching(ctx):
